@@ -10,9 +10,9 @@ func init() {
 	register(&property{
 		ID: "C16",
 		Explanation: "Decides that neither hot-restart state machine (Listener.state, SessionManager.state) can be left in hotRestartState without a time-out running: every store of hotRestartState is followed on every path by the spawn of the checker goroutine or by a store of another state (one listed exception, whose infeasibility side-conditions are re-verified on every run); " +
-			"the checker goroutines leave the state on every exit (store of a non-hot-restart state, or a test that it already differs) and wait on a timer armed with the time-out constant; a stale or foreign epoch changes nothing (state changes of the ack handler are behind epoch equality; the manager's handler returns before any store when the epoch differs during a restart); acknowledgements are sent only on the all-pools-swapped edge, where the state is reset, and the time-out edge closes the reserve pools; the handlers are nil-safe (C13 R13.4). " +
+			"the checker goroutines leave the state on every exit (store of a non-hot-restart state, or a test that it already differs) and wait on a timer armed with the time-out constant; a stale or foreign epoch changes nothing (state changes of the ack handler are behind epoch equality; the manager's handler returns before any store when the epoch differs during a restart); acknowledgements are sent only on the all-pools-swapped edge, where the state is reset, and the time-out edge closes the reserve pools; the handlers are nil-safe (C13 R13.4); a pool that the hand-over did not swap is still rebuilt when its old session dies, because the watcher compares session epochs, not the manager's epoch. " +
 			"NOT decided: that every pool ends on a fresh session of the announced epoch, usability of old sessions meanwhile, ack counting under duplicates/losses, bounded time.",
-		RuleText: "R16.1 must-pass-through from each store of hotRestartState; R16.2 per return of each checker (functions with a select on a timer whose loop stores a state); R16.3 dominance of state stores by epoch tests; R16.4 edge placement of ack sending and pool closing; R16.5 reference to C13 R13.4.",
+		RuleText: "R16.1 must-pass-through from each store of hotRestartState; R16.2 per return of each checker (functions with a select on a timer whose loop stores a state); R16.3 dominance of state stores by epoch tests; R16.4 edge placement of ack sending and pool closing; R16.5 reference to C13 R13.4; R16.6 the watcher's replaced-by-hot-restart test (shared with C17 R17.2).",
 		Run:      runC16,
 	})
 }
@@ -371,6 +371,8 @@ func runC16(p *P, r *R) {
 		r.ob("R16.4", "Listener.checkHotRestart: the restart is declared done only when every acknowledgement arrived", p.pos(chk.Pos()), ok, true, "")
 	}
 	r.note("R16.5 (nil safety of handleHotRestart / handleHotRestartAck) is decided by C13 R13.4")
+	// R16.6 pools that the hot restart did not swap keep being healed (shared with C17 R17.2)
+	watcherEpochTest(p, r, "R16.6")
 	_ = types.Typ
 }
 
